@@ -28,6 +28,13 @@ func main() {
 		os.Exit(2)
 	}
 	sched.Virtual = true
+	if tier == "replay" {
+		if len(os.Args) < 4 {
+			fmt.Fprintln(os.Stderr, "usage: vcheck <ID> replay <file>")
+			os.Exit(2)
+		}
+		os.Exit(core.RunReplay(id, os.Args[3]))
+	}
 	c := core.NewCtx(id, tier, ch.Level)
 	ch.Run(c)
 	os.Exit(c.Finish())
